@@ -26,6 +26,17 @@ var faultVariants = []faultVariant{
 	{"nondet-w4", true, 4},
 }
 
+// faultNondetWorkers: worker counts of the order-relaxed commit, one per (history, commit) in rotation: a
+// count below the number of modified slabs (1, 2, 3) keeps encoder goroutines busy while the ledger is
+// being called, 4 and 16 are at or above it for most commits of these histories.
+var faultNondetWorkers = []int{4, 1, 2, 3, 16}
+
+func faultVariantsFor(h, c int) []faultVariant {
+	vs := append([]faultVariant(nil), faultVariants[:3]...)
+	n := faultNondetWorkers[(h+c)%len(faultNondetWorkers)]
+	return append(vs, faultVariant{fmt.Sprintf("nondet-w%d", n), true, n})
+}
+
 // faultPlan: commit points of a history (step numbers after which a commit happens; the last one is
 // the end of the history).
 func faultPlan(sp histSpec) []int {
@@ -49,6 +60,7 @@ type faultTwin struct {
 	writes []int      // ledger calls of each commit
 	what   string
 	detail string
+	wedged bool // a commit did not return: the storage of the twin is abandoned
 }
 
 func runFaultTwin(sp histSpec, plan []int, rep *Report) (t faultTwin) {
@@ -57,7 +69,12 @@ func runFaultTwin(sp histSpec, plan []int, rep *Report) (t faultTwin) {
 	for e.step < sp.Steps && !e.failed {
 		e.Step()
 		if !e.failed && e.step == plan[ci] {
-			err, log := e.Commit(false, 1)
+			err, log, hung := e.CommitWD(false, 1)
+			if hung != "" {
+				e.fail("C14: a fault-free commit does not return", wdDetail(hung, false, 1, -1, "no fault armed", log))
+				t.wedged = true
+				break
+			}
 			if err != nil {
 				e.fail("fault-free commit failed", err.Error())
 			}
@@ -73,14 +90,25 @@ func runFaultTwin(sp histSpec, plan []int, rep *Report) (t faultTwin) {
 
 // runFaulted re-executes the history, injects a fault at ledger call k of commit c, checks the
 // state after the failure, retries to success (with further sampled faults) and compares with the twin.
-// Returns the number of faulted commit attempts.
-func runFaulted(sp histSpec, plan []int, twin faultTwin, c, k int, v faultVariant, fr *Rng, rep *Report, viol func(step int, what, detail string)) int {
+// Every commit runs under the watchdog of commit_watchdog.go; slow = the armed call takes slowFaultDelay
+// before it fails.  Returns the number of faulted commit attempts and whether a commit did not return
+// (the storage is then abandoned together with the goroutines stuck in it).
+func runFaulted(sp histSpec, plan []int, twin faultTwin, c, k int, v faultVariant, slow bool, fr *Rng, rep *Report, viol func(step int, what, detail string)) (int, bool) {
 	e := newExec(sp, NewReport("", 0))
 	w, base := e.w, e.base
 	ctx := fmt.Sprintf("commit #%d fault at call %d of %d, %s", c, k, twin.writes[c], v.name)
+	if slow {
+		ctx += ", the failing call takes " + slowFaultDelay.String()
+	}
 	bad := func(what, detail string) { viol(e.step, what, ctx+" | "+detail) }
+	wedged := false
 	commitPlain := func() bool {
-		err, _ := e.Commit(v.nondet, v.workers)
+		err, log, hung := e.CommitWD(v.nondet, v.workers)
+		if hung != "" {
+			wedged = true
+			bad("C14: a commit during which no ledger call fails does not return", wdDetail(hung, v.nondet, v.workers, int(w.St.DeltasWithoutTempAddresses()), "no fault armed", log))
+			return false
+		}
 		if e.failed {
 			return false
 		}
@@ -98,9 +126,16 @@ func runFaulted(sp histSpec, plan []int, twin faultTwin, c, k int, v faultVarian
 		nAll := int(w.St.Deltas())
 		fpBefore := e.libFingerprint()
 		before := segSnapshot(base)
-		base.Arm(k)
-		err, log := e.Commit(v.nondet, v.workers)
-		base.Arm(-1)
+		armSlow(base, k, slow)
+		err, log, hung := e.CommitWD(v.nondet, v.workers)
+		if hung != "" {
+			wedged = true
+			rep.Event("commit_did_not_return")
+			bad("C14: a commit with a failing ledger call does not return (it neither reports the error nor finishes)",
+				wdDetail(hung, v.nondet, v.workers, len(pend), fmt.Sprintf("ledger call %d of this attempt armed to fail", k), log))
+			return false
+		}
+		disarmSlow(base)
 		if e.failed {
 			return false
 		}
@@ -240,28 +275,39 @@ func runFaulted(sp histSpec, plan []int, twin faultTwin, c, k int, v faultVarian
 		}
 		ci++
 	}
+	if wedged {
+		return attempts, true
+	}
 	if e.failed {
 		bad("C14: history oracle failed: "+e.what, e.detail)
-		return attempts
+		return attempts, false
 	}
 	// the rest of the history was executed on the recovered storage: same final registers
 	if d := SameRegisters(twin.snaps[len(twin.snaps)-1], base); d != "" {
 		bad("C14: final registers of the history continued after recovery differ from the fault-free twin", d)
 	}
-	return attempts
+	return attempts, false
 }
 
 func cmdFaults(a Args) {
 	rep := NewReport(a.Prop, a.Seed)
 	rep.Rule = "random World histories (30..80 ops, 1-3 roots each empty (40%) / prefilled with ~10-50 (30%) / ~60-260 (30%) random elements incl. nested containers, arrays+maps, depth<=3, wrappers, large values, child handles) at T in {256,300,512,1024} with 2-4 commits at seed-determined points; a fault-free twin (FastCommit, 1 worker) records the ledger after each commit and the number W of ledger calls; " +
-		"for every commit, every flavour in {FastCommit workers 1,2,8; NondeterministicFastCommit workers 4} and every fault position k<W (all k if W<=12, else 12 sampled) the history is re-executed from scratch, call k of that commit fails: " +
-		"error must be *ExternalError; each owned pending id is still pending with its register untouched, or left the write set and its register equals the twin's encoding; Deltas/DeltasWithoutTempAddresses = before - successful calls; Storage.Retrieve of every pending id, VerifyArray/VerifyMap, deep shadow comparison and library fingerprint unchanged; " +
-		"then retries with 0-3 further sampled faults until success: registers byte-identical to the twin at that commit, and again at the end of the continued history. non-trivial = history with >=2 commits of >=2 ledger calls each, all of whose cases ran; distinct by twin final digest. histories are added until -steps faulted commit attempts were made (or -n histories)"
+		"for every commit, every flavour in {FastCommit workers 1,2,8; NondeterministicFastCommit workers 4/1/2/3/16 in rotation over (history, commit)} and every fault position k<W (all k if W<=12, else 12 sampled) the history is re-executed from scratch, call k of that commit fails (order-relaxed commit, even k: the failing call takes 2 ms before it fails): " +
+		"EVERY commit attempt (faulted or not) runs under a watchdog and must return (20 s, or all goroutines of the process parked for 1 s); error must be *ExternalError; each owned pending id is still pending with its register untouched, or left the write set and its register equals the twin's encoding; Deltas/DeltasWithoutTempAddresses = before - successful calls; Storage.Retrieve of every pending id, VerifyArray/VerifyMap, deep shadow comparison and library fingerprint unchanged; " +
+		"then retries with 0-3 further sampled faults until success: registers byte-identical to the twin at that commit, and again at the end of the continued history. non-trivial = history with >=2 commits of >=2 ledger calls each, all of whose cases ran; distinct by twin final digest. histories are added until -steps faulted commit attempts were made (or -n histories). " +
+		"Default mode: 80% of the -steps budget on these (tags fa<h>), 20% on WIDE histories (tags fw<h>, faults_wide.go; -mode wide: only those, -mode world: none): " + wideRule
 	rng := NewRng(a.Seed)
 	defer atree.VerifSetThreshold(1024)
-	budget := a.Steps // -steps = budget of faulted commit attempts; histories are added until it is used up (or -n is reached)
+	// -steps = budget of faulted commit attempts; histories are added until it is used up (or -n is reached)
+	budget, wideBudget := a.Steps-a.Steps/5, a.Steps/5
+	switch a.Mode {
+	case "world":
+		budget, wideBudget = a.Steps, 0
+	case "wide":
+		budget, wideBudget = 0, a.Steps
+	}
 	total := 0
-	for h := 0; h < a.N; h++ {
+	for h := 0; h < a.N && budget > 0; h++ {
 		hr := rng.Fork(uint64(h))
 		tag := fmt.Sprintf("fa%d", h)
 		if !want(tag) {
@@ -269,6 +315,10 @@ func cmdFaults(a Args) {
 		}
 		if total >= budget {
 			rep.Event("budget_exhausted")
+			break
+		}
+		if wdExhausted() {
+			rep.Event("run_stopped_after_commits_that_did_not_return")
 			break
 		}
 		sp := newSpec(hr, 30, 80, false)
@@ -287,6 +337,7 @@ func cmdFaults(a Args) {
 		}
 		fr := hr.Fork(99)
 		multi := 0
+		wedged := false
 		for c, W := range twin.writes {
 			rep.EventN("twin_ledger_calls", W)
 			if W >= 2 {
@@ -310,13 +361,19 @@ func cmdFaults(a Args) {
 				}
 				rep.Event("commit_sampled_positions")
 			}
-			for _, v := range faultVariants {
+			for _, v := range faultVariantsFor(h, c) {
 				for _, k := range ks {
-					if len(rep.Violations) > nviol+5 {
+					if len(rep.Violations) > nviol+5 || wedged {
 						break
 					}
-					total += runFaulted(sp, plan, twin, c, k, v, fr, rep, viol)
+					slow := v.nondet && k%2 == 0
+					n, wd := runFaulted(sp, plan, twin, c, k, v, slow, fr, rep, viol)
+					total += n
+					wedged = wd // a commit did not return: the history is abandoned
 					rep.Event("cases")
+					if v.nondet {
+						rep.Event(fmt.Sprintf("cases_relaxed_commit_workers_%d", v.workers))
+					}
 				}
 			}
 		}
@@ -328,5 +385,8 @@ func cmdFaults(a Args) {
 		}
 	}
 	rep.Events["faulted_commits_total"] = total
+	if wideBudget > 0 {
+		rep.Events["faulted_commits_wide"] = runWideFaults(a, rep, NewRng(a.Seed^0x57494445), wideBudget)
+	}
 	rep.Write(a.Out + "/report.json")
 }
